@@ -74,3 +74,69 @@ contract(
     order_axioms=True,
     props=('C04', 'C01', 'C20'),
 )
+
+
+# ---------------------------------------------------------------------------------------------
+# dtw.distance: rolling two-row buffer.  Buffer row `x` (x in {0,1}) holds, for the matrix row it
+# currently represents, column `col` at position x*length + col - skip.
+LEN = 'mini(c + 1, abs(r - c) + 2 * (s.window - 1) + 3)'
+SKIP = lambda i: '(0 if length == c + 1 else JSrow(%s, r, c, s.window))' % i     # noqa: E731
+PREV_ROW = ('forall(lambda col: implies(JSrow({i} - 1, r, c, s.window) <= col <= c and 0 <= col - {skip} < length, '
+            'dtw[{row} * length + col - {skip}] == W({i}, col)), pattern=W({i}, col))')
+LEFT = 'implies(length == c + 1, forall(lambda col: implies(T1(col) and 0 <= col < JSrow({i} - 1, r, c, s.window), dtw[{row} * length + col] == inf), alt=(W({i}, col), T1(col))))'
+D_SETTLED = ['s.window == Wnd()', 's.adj_penalty == Pen()', 's.adj_max_step == MaxStep()', 's.adj_max_dist == inf',
+             'psi_1b == %s' % P1B, 'psi_2b == %s' % P2B, 'psi_1e == %s' % P1E, 'psi_2e == %s' % P2E,
+             'r == %s' % R, 'c == %s' % C, 'sc == 0', 'length == %s' % LEN, 'nelems(dtw) == 2 * length',
+             's.window >= 1', 'r >= 1', 'c >= 1', '(i0 == 0 and i1 == 1) or (i0 == 1 and i1 == 0)']
+
+contract(
+    'dtw.distance',
+    params={'s1': 'series', 's2': 'series', 'only_ub': ('const', False), 'kwargs': KW},
+    cases=[c for c in kw_cases()],
+    bind={'ctx': CTX},
+    requires=['%s >= 1' % R, '%s >= 1' % C, 'kwargs["window"] is None or kwargs["window"] >= 1',
+              '%s <= %s' % (P1E, R), '%s <= %s' % (P2E, C), '%s <= %s' % (P1B, R), '%s <= %s' % (P2B, C),
+              'kwargs["penalty"] is None or kwargs["penalty"] >= 0',
+              'kwargs["max_length_diff"] is None or kwargs["max_length_diff"] >= 0',
+              # the degenerate combinations that admit an empty alignment are outside the quantifier
+              'not (%s == %s and %s == %s)' % (P2E, C, P1B, R), 'not (%s == %s and %s == %s)' % (P1E, R, P2B, C)],
+    ensures=[
+        'implies(kwargs["max_length_diff"] is not None and abs(%s - %s) > kwargs["max_length_diff"], result == inf)' % (R, C),
+        'implies(kwargs["max_length_diff"] is None or abs(%s - %s) <= kwargs["max_length_diff"], '
+        'result == vsqrt_if(%s, Dend(%s, %s)))' % (R, C, METRIC, P1E, P2E),
+    ],
+    returns='val',
+    loops={
+        0: dict(head='for i in range(min(psi_2b + 1, length))',
+                inv=['forall(lambda k: implies(0 <= k < 2 * length, dtw[k] == (0 if k < i else inf)))',
+                     'nelems(dtw) == 2 * length', 'length == %s' % LEN, 'psi_2b == %s' % P2B, 'r == %s' % R, 'c == %s' % C,
+                     's.window >= 1', 's.window == Wnd()'],
+                variant='mini(psi_2b + 1, length) - i'),
+        1: dict(head='for i in range(r)',
+                inv=D_SETTLED + ['skip == ' + SKIP('i - 1'), 'psi_shortest == PsiCol(psi_1e, i)',
+                                 PREV_ROW.format(i='i', skip='skip', row='i1'), LEFT.format(i='i', row='i1')],
+                variant='r - i'),
+        2: dict(head='for ii in range(i1 * length, i1 * length + length)',
+                inv=D_SETTLED + ['0 <= i < r', 'skipp == ' + SKIP('i - 1'), 'skip == JSrow(i, r, c, s.window)',
+                                 'psi_shortest == PsiCol(psi_1e, i)',
+                                 PREV_ROW.format(i='i', skip='skipp', row='i0'),
+                                 'forall(lambda k: implies(i1 * length <= k < ii, dtw[k] == inf))'],
+                variant='i1 * length + length - ii'),
+        3: dict(head='for j in range(j_start, j_end)',
+                inv=D_SETTLED + ['0 <= i < r', 'skipp == ' + SKIP('i - 1'), 'skip == ' + SKIP('i'), 'psi_shortest == PsiCol(psi_1e, i)',
+                                 'j_start == JSrow(i, r, c, s.window)', 'j_end == JErow(i, r, c, s.window)',
+                                 PREV_ROW.format(i='i', skip='skipp', row='i0'),
+                                 'forall(lambda col: implies(JSrow(i, r, c, s.window) <= col <= c and 0 <= col - skip < length, '
+                                 'dtw[i1 * length + col - skip] == (W(i + 1, col) if col <= j else inf)), pattern=W(i + 1, col))',
+                                 LEFT.format(i='i + 1', row='i1')],
+                variant='j_end - j'),
+    },
+    # ghost assertions that only name the columns the body touches (instantiation seeds)
+    hints={'d = idist_fn(': ['Mention(W(i, j)) and Mention(W(i, j + 1)) and Mention(W(i + 1, j)) and Mention(W(i + 1, j + 1))'],
+           'ec = ec_next': ['Mention(W(i + 1, c))'],
+           'ic = min(': ['Mention(WRowMin(r, maxi(c - psi_2e, skip), c + 1)) and Mention(WRowMin(r, c - psi_2e, c + 1))']},
+    theories=('dtw', 'bounds'),
+    lemmas=['BufFold2', 'RowAllInf', 'RowLeadInf'],
+    order_axioms=True,
+    props=('C01', 'C20'),
+)
